@@ -6,7 +6,7 @@ from typing import Dict, List, Optional, Set, Tuple
 
 from ..alias import engine, is_private, flat
 from ..cfg import Node
-from ..core import AnalysisError, Ob, dotted, kw, need, ob, short, src, strip_wrappers, uncopy, walk_no_nested
+from ..core import canon_in, AnalysisError, Ob, dotted, kw, need, ob, short, src, strip_wrappers, uncopy, walk_no_nested
 from ..flow import forward, node_calls, node_defs
 from ..runner import Ctx, rule
 from .mainmodel import mainmodel
@@ -288,7 +288,7 @@ def _encoder_ok(c: ast.Call, mm) -> Tuple[bool, str]:
         return dotted(e), sl
     (pa, sa), (pb, sb) = ck(c.args[0]), ck(c.args[1])
     if pa and pb and pa.endswith(".hess_inv.sk") and pb.endswith(".hess_inv.yk") and pa.split(".")[0] == pb.split(".")[0]:
-        ok = sa == sb and sa is not None and sa.replace(" ", "") == "-maxcor:"
+        ok = sa == sb and sa is not None and sa.replace(" ", "") in ("-maxcor:", "-maxcor:None")
         return ok, f"checkpoint pairs {pa}[{sa}], {pb}[{sb}]" + ("" if ok else ": the two row slices must both be [-maxcor:] (the most recent maxcor pairs)")
     return False, f"arguments ({short(c.args[0], 40)}, {short(c.args[1], 40)}) are not (dX, dG) of the histories"
 
